@@ -37,7 +37,7 @@ EXC_TYPES = ['KeyError', 'IndexError', 'ValueError', 'TypeError', 'TypeErrorArgu
 FLOORS = {
     'quick': dict({'events_checked': 4000, 'tagging_compared': 2500, 'failing_reached': 800, 'default_only_compared': 4000,
                    'declared_params_calls': 500, 'fallback_name_calls': 1000, 'nomemo_retry_k3': 200, 'memo_replay_seen': 25,
-                   'gen_cases': 400, 'gen_reused_cases': 150}, **{'exc_propagated:' + e: 60 for e in EXC_TYPES}),
+                   'gen_cases': 400, 'gen_reused_cases': 150, 'scalar_family_cases': 1200}, **{'exc_propagated:' + e: 60 for e in EXC_TYPES}),
     'thorough': {'events_checked': 100000, 'tagging_compared': 60000, 'failing_reached': 20000},
 }
 N = {'quick': 2400, 'thorough': 64000}
@@ -402,6 +402,41 @@ def check_nomemo(acc, rng, kind):
     acc.nontriv('nomemo', k, nomemo, kind)
 
 
+def check_scalars(acc, rng, kind):
+    """one action receives, in one parse, scalar ASTs that are equal across types (1, True, 1.0 / 0, False, 0.0):
+    each call must get ITS value, type included (argument binding must not be shared between equal values)"""
+    C, T = L.Call, L.Tok
+    pairs = [('a', '1'), ('b', 'True'), ('c', '1.0'), ('d', '0'), ('e', 'False'), ('f', '0.0'), ('g', "'1'")]
+    rng.shuffle(pairs)
+    rules = [L.Rule('start', L.Seq((L.PClo(C('v')), L.EOF()))),
+             L.Rule('v', L.Choice(tuple(C('r' + k) for k, _ in pairs)))]
+    for k, c in pairs:
+        rules.append(L.Rule('r' + k, L.Seq((T(k), L.Over(L.Const(c))))))
+    g = L.Grammar(rules)
+    text = ' '.join(rng.choice(pairs)[0] for _ in range(rng.choice([3, 5, 8])))
+    be = Backend(g, kind)
+    plain = run(be, g, text, None)
+    rec = Recorder()
+    out = run(be, g, text, rec)
+    acc.evaluations += 1
+    acc.count('scalar_family_cases')
+    w = base_witness(g, text, backend=kind, sem='scalars')
+    if plain[0] != 'ok':
+        acc.violation(f'scalar-family-parse/{kind}', f'the scalar family failed to parse: {show(plain)} {L.grammar_text(g)!r} {text!r}', w)
+        return
+    if not same(plain, out):
+        acc.violation(f'action-argument-mixed-up/{kind}',
+                      f'an identity action changed scalar values (an action was handed another call\'s value): '
+                      f'{L.grammar_text(g)!r} {text!r} NONE={show(plain)} IDENTITY={show(out)}', w)
+        return
+    # every event of rule v must carry the value of the token it followed
+    expect = {k: c for k, c in pairs}
+    vals = [e[1] for e in rec.events if e[0] == 'v']
+    acc.nontriv('scalars', text, kind)
+    if crepr(vals) != crepr(plain[1] if isinstance(plain[1], list) else [plain[1]]) and len(vals) == len(text.split()):
+        acc.violation(f'action-argument-mixed-up/{kind}', f'actions of rule v saw {vals}, the parse returned {plain[1]}: {text!r}', w)
+
+
 def run_shard(desc, acc):
     for i in range(desc['n']):
         rng = random.Random(h64('C06', desc['seed'], desc['shard'], i))
@@ -426,6 +461,7 @@ def run_shard(desc, acc):
                 check_default_only(acc, be, g, text, res[2].events)
             check_declared(acc, be, g, text, rng)
         check_nomemo(acc, rng, kind)
+        check_scalars(acc, rng, kind)
         if i == 0:
             acc.sample({'grammar': L.grammar_text(g), 'inputs': texts,
                         'semantics': ['recording', 'tagging', 'failing', 'raising', 'default_only', 'declared']})
